@@ -218,7 +218,12 @@ func optimizerInlineGuard(c *Ctx, g *load.G) (bool, string) {
 			stripped[minParens(stripAsserts(f))] = true
 		}
 		for _, nd := range []string{"ok(" + recv + ".rules[" + name + "])", "!ok(" + recv + ".ruleUsesRules[" + name + "])"} {
-			if !before.holds(minParens(nd)) && !stripped[minParens(stripAsserts(nd))] {
+			// a looked-up rule that is not nil is a defined rule (the table never holds nil: C13-a on its writers)
+			alt := ""
+			if strings.HasPrefix(nd, "ok(") {
+				alt = strings.TrimSuffix(strings.TrimPrefix(nd, "ok("), ")") + "!=nil"
+			}
+			if !before.holds(minParens(nd)) && !stripped[minParens(stripAsserts(nd))] && !(alt != "" && (before.holds(minParens(alt)) || stripped[minParens(stripAsserts(alt))])) {
 				bad = append(bad, "a reference is inlined without `"+nd+"` (facts: "+abbreviate(strings.Join(before.facts(), " "))+")")
 			}
 		}
